@@ -132,6 +132,36 @@ def lcPrepare (t : Ty) : List Bytes → List Bytes → List Bytes × List Nat
     | some i => let (d, ks) := lcPrepare t dict xs; (d, i :: ks)
     | none => let (d, ks) := lcPrepare t (dict ++ [x]) xs; (d, dict.length :: ks)
 
+/-- tail-recursive form used by the compiled driver (the non-tail form keeps every intermediate
+dictionary alive on the stack: quadratic memory for 65 536 distinct values); proved equal below -/
+def lcPrepareTR (t : Ty) : List Bytes → List Bytes → List Nat → List Bytes × List Nat
+  | dict, [], acc => (dict, acc.reverse)
+  | dict, x :: xs, acc =>
+    match findKey t x dict with
+    | some i => lcPrepareTR t dict xs (i :: acc)
+    | none => lcPrepareTR t (dict ++ [x]) xs (dict.length :: acc)
+
+theorem lcPrepareTR_eq (t : Ty) : ∀ (rows dict : List Bytes) (acc : List Nat),
+    lcPrepareTR t dict rows acc = ((lcPrepare t dict rows).1, acc.reverse ++ (lcPrepare t dict rows).2) := by
+  intro rows
+  induction rows with
+  | nil => intro dict acc; simp [lcPrepareTR, lcPrepare]
+  | cons x xs ih =>
+    intro dict acc
+    simp only [lcPrepareTR, lcPrepare]
+    cases findKey t x dict with
+    | some i => simp only [ih]; simp
+    | none => simp only [ih]; simp
+
+/-- `lcPrepare` computed with the accumulator form -/
+def lcPrepareFast (t : Ty) (dict rows : List Bytes) : List Bytes × List Nat := lcPrepareTR t dict rows []
+
+@[csimp] theorem lcPrepare_eq_fast : @lcPrepare = @lcPrepareFast := by
+  funext t dict rows
+  unfold lcPrepareFast
+  rw [lcPrepareTR_eq]
+  simp
+
 /-- key type chosen by `Prepare` from the dictionary size: 0 = UInt8 … 3 = UInt64 -/
 def lcKeyCode (n : Nat) : Nat :=
   if n < 255 then 0 else if n < 65535 then 1 else if n % 4294967296 < 4294967295 then 2 else 3
